@@ -157,7 +157,7 @@ def run(ctx, canary=False):
         if not trees:
             continue
         cells = [(k + 1, i + 1) for k, p in enumerate(s["pots"]) for i in range(len(p["w"]))]
-        if thorough and len(cells) <= 12:
+        if thorough and len(cells) <= 8:
             zsets = [fs(c) for r in range(len(cells) + 1) for c in itertools.combinations(cells, r)]
         else:
             zsets = [fs()] + [fs([c]) for c in cells]
